@@ -155,12 +155,6 @@ Definition may_request (q : lpeer) (i : Z) (af : bool) : bool := if af then zmem
 Definition legal_new (s : lst) (asg : list Z) (q : lpeer) (i : Z) (af : bool) : bool :=
   negb (s_completed s) && open_q q && (0 <=? i) && (i <? np_of s) && nthb (q_has q) i && open_piece s i &&
   may_request q i af && (count_on asg i <=? Z.max 1 (s_maxdup s)).
-(* an idle, unchoked peer holding an open piece nobody requests (the wording of C10) *)
-Definition eligible (s : lst) (asg : list Z) (q : lpeer) : bool :=
-  negb (s_completed s) && open_q q &&
-  existsb (fun i => nthb (q_has q) i && open_piece s i && (count_on asg i =? 0) && negb (q_choking q))
-          (map Z.of_nat (seq 0 (length (s_done s)))).
-
 Definition new_dl (s : lst) (q : lpeer) (i : Z) (af : bool) : ldl :=
   let bl := nth (Z.to_nat i) (s_blocks s) [] in
   {| l_idx := i; l_af := af; l_pd := pdl_new bl 0 af (q_fast q); l_good := true; l_hist := [] |}.
@@ -178,11 +172,12 @@ Fixpoint assign_go (s : lst) (tried : list Z) (asg : list Z) (all : list Z) (p :
             if zmem p tried && legal_new s all q i af
             then do_request (upd_p s p (fun q => set_dl q (Some (new_dl s q i af)))) p
             else with_bad s (300 + p)
-        | None, None => if zmem p tried && eligible s all q then with_bad s (400 + p) else s
+        | None, None => s
         end in
       assign_go s' tried r all (p + 1)
   end.
-Definition assign (s : lst) (tried : list Z) (asg : list Z) : lst := assign_go s tried asg asg 0.
+Definition assign (s : lst) (tried : list Z) (asg : list Z) : lst :=
+  if Nat.eqb (length asg) (length (s_peers s)) then assign_go s tried asg asg 0 else with_bad s 650.
 
 (* ---- handlers: (state after the deterministic part, peers the handler tries to start) ---- *)
 Definition all_true (l : list bool) : bool := forallb (fun b => b) l.
@@ -273,6 +268,27 @@ Definition h_ext (s : lst) (p a : Z) : lst * list Z :=
 
 Definition on_piece (s : lst) (i : Z) : list Z :=
   filter (fun p => match q_dl (get_p s p) with Some d => l_idx d =? i | None => false end) (peer_ids s).
+
+(* C10, on the state after a handler: an idle, unchoked, open peer holding an open piece nobody is
+   downloading (the wording of the property; allowed-fast grants to choked peers are not counted) *)
+Definition unrequested (s : lst) (i : Z) : bool := match on_piece s i with [] => true | _ => false end.
+Definition elig (s : lst) (p : Z) : bool :=
+  let q := get_p s p in
+  negb (s_completed s) && negb (s_stopped s) && open_q q && negb (q_choking q) &&
+  match q_dl q with None => true | Some _ => false end &&
+  existsb (fun i => nthb (q_has q) i && open_piece s i && unrequested s i) (map Z.of_nat (seq 0 (length (s_done s)))).
+(* C09: simultaneous downloads of one piece stay within the end-game limit *)
+Definition over_dup (s : lst) (i : Z) : bool := zlen (on_piece s i) >? Z.max 1 (s_maxdup s).
+Definition first_such (f : Z -> bool) (l : list Z) : option Z :=
+  match filter f l with [] => None | x :: _ => Some x end.
+Definition post_check (s : lst) : lst :=
+  match first_such (elig s) (peer_ids s) with
+  | Some p => with_bad s (400 + Z.abs p)
+  | None => match first_such (over_dup s) (map Z.of_nat (seq 0 (length (s_done s)))) with
+            | Some i => with_bad s (450 + Z.abs i)
+            | None => s
+            end
+  end.
 
 (* handlePieceWriteDone, part before the picker runs *)
 Definition stop_all (s : lst) : lst :=
@@ -375,7 +391,8 @@ Definition lstep (fixed : bool) (s : lst) (ev : list Z) (bits : list bool) (asg 
       let '(s1, tried) := dispatch fixed s code p a b c g bits in
       let s2 := assign s1 (if s_completed s1 || s_stopped s1 then [] else tried) asg in
       let s3 := if (code =? 9) && negb (z2b g) then match inf with Some (_, i, true) => h_write_post s2 i | _ => s2 end else s2 in
-      (s3, obs_state s3 ++ (if code =? 9 then write_obs s inf (z2b g) else []))
+      let s4 := post_check s3 in
+      (s4, obs_state s4 ++ (if code =? 9 then write_obs s inf (z2b g) else []))
   | _ => (with_bad s 600, [-779])
   end.
 
@@ -439,7 +456,11 @@ Fixpoint run_le_go (fixed : bool) (fuel : nat) (np P : nat) (s : lst) (l : list 
   | O => [-778]
   | S f =>
     match l with
-    | [-1] => if s_bad s =? 0 then [] else [-555; s_bad s]
+    | [-1; expect] =>
+        (* expect = 1: at the end an honest, unchoked seed was the only open peer and had been served in full:
+           the download must have completed (or been stopped by an injected disk error) *)
+        (if z2b expect && negb (s_completed s || s_stopped s) then [-558] else []) ++
+        (if s_bad s =? 0 then [] else [-555; s_bad s])
     | _ => match step_case fixed np P s l with
            | Some (s', o, rest) => o ++ run_le_go fixed f np P s' rest
            | None => [-779]
@@ -455,7 +476,7 @@ Fixpoint last_state (fixed : bool) (fuel : nat) (np P : nat) (s : lst) (l : list
   | O => s
   | S f =>
     match l with
-    | [-1] => s
+    | [-1; _] => s
     | _ => match step_case fixed np P s l with
            | Some (s', _, rest) => last_state fixed f np P s' rest
            | None => s
